@@ -7,6 +7,14 @@ VERIF = os.path.dirname(os.path.dirname(os.path.abspath(__file__)))
 T = "bounded symbolic execution of the real functions (symx proxies -> z3 bit-vectors/UF), unsat per path and shape; sat replayed natively"
 
 CHECKS = {
+    "C01": dict(
+        text="The real RecordLayer.sendRecord -> RecordSocket -> recvRecord path is executed for every protection mode (null, stream MtE, CBC MtE with implicit/explicit IV, CBC EtM, AEAD with explicit and XOR nonce, TLS 1.3 inner plaintext with a padding callback) on symbolic plaintext, content type, sequence number, IV and nonce; z3 proves per enumerated length that the reader yields exactly the type and bytes written, consumes the whole wire, and that both sequence numbers advance once per record.",
+        note="Ciphers/MACs replaced by bijection / uninterpreted-function models (the real ones are C09's subject); payload lengths limited to the enumerated ones (quick: 9 lengths around block boundaries per mode, two records in sequence for three modes); fragmentation and read-buffer obligations cover limits scaled down to <= 16.",
+        design="5/C01", technique=T),
+    "C02": dict(
+        text="The real recvRecord is handed one ARBITRARY symbolic record (symbolic type/version/body, enumerated length) while an honest writer has emitted two records; under the MAC/AEAD unforgeability assumption z3 proves that acceptance implies the yielded type and plaintext are exactly those of the record the writer sent at the reader's sequence number, and that every rejection is one of the record layer's integrity/decoding exceptions. SSLv2-framed bytes on a protected connection and TLS 1.3 inner-plaintext de-padding are separate obligations.",
+        note="Unforgeability and bijectivity are assumptions (stated in evidence); block/stream ciphers are modelled statelessly, which only strengthens the adversary; lengths enumerated; timing not modelled.",
+        design="5/C02", technique=T),
     "C12": dict(
         text="For every enumerated (version, MAC, body length, block size) the real ct_check_cbc_mac_and_pad is executed on a fully symbolic body, sequence number and content type and z3 proves it equivalent to the plain specification (MAC modelled as an uninterpreted function of its whole input); the ct_* helpers are proved for all 32-bit arguments. Bounded by the enumerated lengths (quick: 5 lengths per MAC + two window-edge lengths; thorough: every n <= 80 and window edges to 400).",
         note="HMAC/SSLv3 MAC abstracted as uninterpreted function per input length; lengths outside the enumerated shapes are not covered; z3 and the symx engine are trusted (engine validated by lib/selfcheck.py and native replay of every counterexample).",
